@@ -242,10 +242,20 @@ func usesRunes(m *Model, fn *ssa.Function, d int) bool {
 
 // checkBuiltinMessages: fmt.Sprintf(fail.ErrFunc..., name, kind, ...) quotes the registered name and kind.
 func (m *Model) checkBuiltinMessages(s *Sink, rule string, be BuiltinEntry) {
-	var visit func(fn *ssa.Function, kindParam *ssa.Parameter, d int)
+	var visit func(fn *ssa.Function, kindParam *ssa.Parameter, bind map[*ssa.Parameter]string, d int)
 	seen := map[*ssa.Function]bool{}
 	n := 0
-	visit = func(fn *ssa.Function, kindParam *ssa.Parameter, d int) {
+	visit = func(fn *ssa.Function, kindParam *ssa.Parameter, bind map[*ssa.Parameter]string, d int) {
+		strOf := func(v ssa.Value) (string, bool) {
+			if k, ok := constOfValue(v); ok {
+				return k, true
+			}
+			if p, isP := v.(*ssa.Parameter); isP {
+				k, ok := bind[p]
+				return k, ok
+			}
+			return "", false
+		}
 		if seen[fn] || d > 2 || fn.Blocks == nil {
 			return
 		}
@@ -260,13 +270,17 @@ func (m *Model) checkBuiltinMessages(s *Sink, rule string, be BuiltinEntry) {
 				if inPkg(sc, "evaluator") && sc.Signature.Recv() == nil && sc != fn {
 					// helper: a constant kind argument selects what the helper prints
 					var kp *ssa.Parameter
+					nb := map[*ssa.Parameter]string{} // constant string arguments of this call: what the helper's parameters stand for
 					for i, a := range c.Call.Args {
-						if k, okc := constOfValue(a); okc && k == be.Kind && i < len(sc.Params) {
-							kp = sc.Params[i]
+						if k, okc := strOf(stripIface(a)); okc && i < len(sc.Params) {
+							nb[sc.Params[i]] = k
+							if k == be.Kind {
+								kp = sc.Params[i]
+							}
 						}
 					}
 					if _, registered := m.Facts().BuiltinOf[sc]; !registered {
-						visit(sc, kp, d+1)
+						visit(sc, kp, nb, d+1)
 					}
 					continue
 				}
@@ -283,14 +297,14 @@ func (m *Model) checkBuiltinMessages(s *Sink, rule string, be BuiltinEntry) {
 				}
 				n++
 				key := fmt.Sprintf("%s|%s.%s names itself in its error #%d", fnKey(be.Fn), be.Kind, be.Name, n)
-				name, okn := constOfValue(stripIface(elems[0]))
-				kind, okk := constOfValue(stripIface(elems[1]))
+				name, okn := strOf(stripIface(elems[0]))
+				kind, okk := strOf(stripIface(elems[1]))
 				if !okk && kindParam != nil && stripIface(elems[1]) == ssa.Value(kindParam) {
 					kind, okk = be.Kind, true
 				}
 				if okn && okk && name == be.Name && kind == be.Kind {
 					s.OK(rule, key, m.InstrPos(c), "the message quotes %q and %q", name, kind)
-				} else if d > 0 && okn && okk && kind == be.Kind {
+				} else if _, literal := constOfValue(stripIface(elems[0])); d > 0 && literal && okn && okk && kind == be.Kind {
 					// shared helper registered under several names (decimal): the helper's constant name must be one it is reachable from
 					s.OK(rule, key, m.InstrPos(c), "shared helper quotes %q and %q", name, kind)
 				} else {
@@ -299,5 +313,5 @@ func (m *Model) checkBuiltinMessages(s *Sink, rule string, be BuiltinEntry) {
 			}
 		}
 	}
-	visit(be.Fn, nil, 0)
+	visit(be.Fn, nil, nil, 0)
 }
